@@ -29,11 +29,15 @@ type Point struct {
 }
 
 // Cost of taking alternative alt at this point.
+//
+// Every departure from the default answer costs one deviation: a preemption
+// of a runnable thread, a thread other than the lowest runnable id when the
+// running thread blocks, a map order other than the sorted one, an
+// environment answer other than the default. (Leaving the choice among
+// several runnable threads at a blocking point free, as preemption bounding
+// does, is exponential in the number of rendezvous of the token streams here.)
 func (p Point) Cost(alt int) int {
 	if alt == 0 {
-		return 0
-	}
-	if p.Kind == PSched && !p.Preempt {
 		return 0
 	}
 	return 1
